@@ -265,8 +265,11 @@ func genC18(t *rapid.T) c18Case {
 			blk = append(blk, kv{"peers", l})
 		}
 		if opt("dnn") {
-			exp.CPIface.Dnn = "internet"
-			blk = append(blk, kv{"dnn", "internet"})
+			// free-form string: values that need escaping in JSON (quotes, backslashes, control and non-ASCII
+			// characters) but contain no comment marker - comments elsewhere must still be ignored
+			dnn := rapid.SampledFrom([]string{"internet", "internet", "internet", "inter\"net", "a\\b", "x\"y\"z\"", "q\\\"", "ünï.cödé", "a<b>&c", "tab\there\nnl"}).Draw(t, "dnn")
+			exp.CPIface.Dnn = dnn
+			blk = append(blk, kv{"dnn", dnn})
 		}
 		if opt("http") {
 			exp.CPIface.HTTPPort = "8080"
